@@ -454,6 +454,11 @@ def pinned_cov():
                 {"cls": "LinearFinite", "rmin": 0.0, "rmax": 12.0}):
         for rule, n in (("GaussLegendre", 21), ("GaussChebyshev", 12), ("ClenshawCurtis", 9), ("TanhSinh", 21)):
             out.append({"rule": rule, "n": n, "tf": tfd, "g": g})
+    # large open rules: the extreme nodes lie within 1e-5 of the domain ends without being on them - the new domain is
+    # still the image of the OLD DOMAIN, not of the extreme nodes
+    for tfd in ({"cls": "LinearFinite", "rmin": 2.0, "rmax": 5.0}, {"cls": "Becke", "rmin": 0.0, "R": 1.5, "trim": True}):
+        for rule, n in (("GaussChebyshev", 450), ("GaussChebyshevType2", 450), ("GaussLegendre", 600), ("FejerFirst", 500)):
+            out.append({"rule": rule, "n": n, "tf": tfd, "g": g})
     for tfd in ({"cls": "Identity"}, {"cls": "LinearInfinite", "rmin": 0.0, "rmax": 12.0, "b": None}, {"cls": "Exp", "rmin": 0.01, "rmax": 12.0, "b": 10.0},
                 {"cls": "Power", "rmin": 0.01, "rmax": 12.0, "b": None}):
         for rule, n in (("UniformInteger", 11), ("GaussLaguerre", 10), ("SingleExp", 15)):
